@@ -58,6 +58,12 @@ FAMILIES = [
     ("def {H}kw2({a}, **kw):\n    return {a} + kw['z']\n", "lambda {e}: {H}kw2({e}.i_pt, z={e}.i_eta)"),
     # a nested lambda in the helper with a default that mentions a parameter of the helper
     ("def {H}dl({a}, {b}):\n    return {a}.so_jets.Select(lambda {j}, k_={b}: {j}.i_pt + k_)\n", "lambda {e}: {H}dl({e}, {e}.i_eta)"),
+    # the helper's body applies a lambda on the spot around a nested lambda / comprehension: two open expansions when the inner binder is met
+    ("def {H}fm({a}):\n    return (lambda n_: {a}.so_jets.Select(lambda {j}: {j}.i_pt + {a}.i_pt + n_).Count())(3)\n", "lambda {e}: {H}fm({e}.o_p)"),
+    ("def {H}fm({a}):\n    return (lambda n_: len([{j} for {j} in {a}.so_jets if {j}.i_pt > {a}.i_eta + n_]))(2)\n", "lambda {e}: {H}fm({e}.o_p) + {e}.i_pt"),
+    # products of one factory wrapped in each other (same code object, different closures)
+    ("def {H}base({a}):\n    return {a}.i_pt\n\n\ndef {H}mk(f_, k_):\n    def {H}inner({a}):\n        return f_({a}) + k_\n    return {H}inner\n\n\n{H}cl = {H}mk({H}mk({H}base, 1), 2)\n",
+     "lambda {e}: {H}cl({e}) - {H}cl({e}.o_p)", "lambda {e}: (({e}.i_pt + 1) + 2) - (({e}.o_p.i_pt + 1) + 2)"),
     # comprehension in the helper
     ("def {H}lc({a}):\n    return [{j}.i_pt for {j} in {a}.so_jets if {j}.b_ok]\n", "lambda {e}: len({H}lc({e}))"),
     # comprehension whose loop variable may have the name of something in the argument, or of a parameter
